@@ -13,6 +13,8 @@ import (
 	"regexp"
 	"strings"
 
+	"github.com/php-any/origami/token"
+
 	"verif/harness/lexh"
 	"verif/harness/vh"
 )
@@ -24,6 +26,7 @@ type Case struct {
 	Mode string `json:"mode"`
 	Hex  string `json:"hex"`
 	Run  bool   `json:"run,omitempty"`
+	Tok  string `json:"tok,omitempty"` // hole stream: the token that fills the hole
 }
 
 var lineNo = regexp.MustCompile(`:\d+$`)
@@ -55,7 +58,7 @@ func Run(c *vh.Ctx) {
 		if len(src) > 20000 {
 			return
 		}
-		cases = append(cases, Case{name, mode, hex.EncodeToString([]byte(src)), run})
+		cases = append(cases, Case{Name: name, Mode: mode, Hex: hex.EncodeToString([]byte(src)), Run: run})
 	}
 	pool := lexh.NewPool(c.Workers)
 	if len(c.ReplayRaw) > 0 {
@@ -163,6 +166,24 @@ func Run(c *vh.Ctx) {
 			}
 			cases = append(cases, ns...)
 		}
+		// every token of the table in every expression position, with and without an operand (holes.go)
+		if os.Getenv("C01_NOHOLES") == "" {
+			cases = append(cases, holeStream(c)...)
+		}
+		// constructs the shared snippet list lacks (array / call spread in each position, nullsafe, clone,
+		// print, references, list(), static closures …): same complete enumeration of one-token damage
+		for _, sn := range extraConstructs {
+			cuts := append([]int{0}, lexh.TokenCuts(sn)...)
+			add("construct", "s", lexh.ConstructPrelude+sn, true)
+			for k := 1; k < len(cuts); k++ {
+				add("construct:prefix", "s", lexh.ConstructPrelude+sn[:cuts[k]], true)
+				add("construct:delete", "s", lexh.ConstructPrelude+sn[:cuts[k-1]]+sn[cuts[k]:], true)
+				add("construct:dup", "s", lexh.ConstructPrelude+sn[:cuts[k]]+sn[cuts[k-1]:], true)
+				for w := 2; w <= 4 && k+w-1 < len(cuts); w++ {
+					add("construct:delete", "s", lexh.ConstructPrelude+sn[:cuts[k-1]]+sn[cuts[k+w-1]:], true)
+				}
+			}
+		}
 		// richer generated programs (classes, match, class-init literals, closures, named / spread
 		// arguments, destructuring, heredoc …): prefixes cut at token boundaries and mutants, all run
 		for i := 0; i < c.N(250, 5000); i++ {
@@ -202,6 +223,17 @@ func Run(c *vh.Ctx) {
 	}
 	// the cases are judged in batches: a batch's answers (token lists!) are dropped before the next
 	// one is asked for — the thorough tier has several hundred thousand cases
+	// dev aid: C01_VIOLDUMP=<file> gets one line (signature, case JSON) per violation raised
+	viol := func(sig, what string, cs Case) {
+		c.Violation(sig, what, cs)
+		if p := os.Getenv("C01_VIOLDUMP"); p != "" {
+			if f, err := os.OpenFile(p, os.O_APPEND|os.O_CREATE|os.O_WRONLY, 0o644); err == nil {
+				js, _ := json.Marshal(cs)
+				fmt.Fprintf(f, "%s\t%s\t%s\n", sig, js, strings.ReplaceAll(what, "\n", " "))
+				f.Close()
+			}
+		}
+	}
 	judge := func(batch []Case) {
 		// phase A: lex + parse (a hang or crash here is a violation)
 		reqs := make([]lexh.Req, len(batch))
@@ -224,6 +256,12 @@ func Run(c *vh.Ctx) {
 			switch {
 			case rv.Hung:
 				c.Hit("run:long(not judged)")
+				if p := os.Getenv("C01_RUNDUMP"); p != "" {
+					if f, err := os.OpenFile(p, os.O_APPEND|os.O_CREATE|os.O_WRONLY, 0o644); err == nil {
+						fmt.Fprintf(f, "%s\trun-long\t%s\t%s\n", batch[i].Name, rv.HangSite, strings.TrimPrefix(string(mustHex(batch[i].Hex)), lexh.ConstructPrelude))
+						f.Close()
+					}
+				}
 			case rv.Resp == nil:
 				verd[i].Resp.Run = "died"
 				verd[i].Resp.RunMsg = rv.Died
@@ -259,14 +297,24 @@ func Run(c *vh.Ctx) {
 			c.Hit("input:" + k)
 			n := len(cs.Hex) / 2
 			if v.Hung {
+				if p := os.Getenv("C01_RUNDUMP"); p != "" {
+					if f, err := os.OpenFile(p, os.O_APPEND|os.O_CREATE|os.O_WRONLY, 0o644); err == nil {
+						fmt.Fprintf(f, "%s\tparse-hang\t%s\t%s\n", cs.Name, v.HangSite, strings.TrimPrefix(string(mustHex(cs.Hex)), lexh.ConstructPrelude))
+						f.Close()
+					}
+				}
 				c.Eval(caseKey(cs), true)
-				c.Violation("hang:"+v.HangSite, fmt.Sprintf("lexing+parsing %d bytes did not finish within %v, looping in %s (input %s)", n, lexh.Timeout(n), v.HangSite, cs.Name), cs)
+				hsig := "hang:" + v.HangSite
+				if strings.HasPrefix(cs.Name, "hole:") {
+					hsig = "hang:hole:" + cs.Tok // the sampled site of a hang varies; the token that fills the hole does not
+				}
+				viol(hsig, fmt.Sprintf("lexing+parsing %d bytes did not finish within %v, looping in %s (input %s)", n, lexh.Timeout(n), v.HangSite, cs.Name), cs)
 				c.Hit("outcome:hang")
 				continue
 			}
 			if v.Died != "" || v.Resp == nil {
 				c.Eval(caseKey(cs), true)
-				c.Violation("died:"+firstWords(v.Died), "process died while lexing/parsing: "+v.Died, cs)
+				viol("died:"+firstWords(v.Died), "process died while lexing/parsing: "+v.Died, cs)
 				c.Hit("outcome:died")
 				continue
 			}
@@ -274,14 +322,20 @@ func Run(c *vh.Ctx) {
 			c.Eval(caseKey(cs), len(r.Toks) >= 3)
 			c.SampleSome(map[string]any{"name": cs.Name, "mode": cs.Mode, "bytes": n, "tokens": len(r.Toks), "parse": r.Parse, "run": r.Run}, 1009)
 			if r.LexPanic != "" {
-				c.Violation("lex:panic:"+siteSig(r.LexPanic), "lexer panic: "+r.LexPanic, cs)
+				viol("lex:panic:"+siteSig(r.LexPanic), "lexer panic: "+r.LexPanic, cs)
 				c.Hit("outcome:lex-panic")
 				continue
 			}
 			c.Hit("parse:" + r.Parse)
 			dumpWork(cs.Name, n, r.ParseAllocs, interpPieces(r.Toks), r.ParseAdv, r.ParseTokens, r.ParseUS, r.Parse, cs.Hex)
+			if p := os.Getenv("C01_RUNDUMP"); p != "" && r.Parse == "panic" {
+				if f, err := os.OpenFile(p, os.O_APPEND|os.O_CREATE|os.O_WRONLY, 0o644); err == nil {
+					fmt.Fprintf(f, "%s\tparse-panic\t%s\t%s\n", cs.Name, r.ParseMsg, strings.TrimPrefix(string(mustHex(cs.Hex)), lexh.ConstructPrelude))
+					f.Close()
+				}
+			}
 			if r.Parse == "panic" {
-				c.Violation("parse:panic:"+siteSig(r.ParseMsg), "parser panic: "+r.ParseMsg, cs)
+				viol("parse:panic:"+siteSig(r.ParseMsg), "parser panic: "+r.ParseMsg, cs)
 			}
 			if why := overWork(r, n, interpPieces(r.Toks)); why != "" {
 				// the deterministic form of "time bounded by a modest function of the input length"
@@ -289,13 +343,22 @@ func Run(c *vh.Ctx) {
 				if len(kind) >= 3 && kind[0] == "nestgen" {
 					sig = "work:nest:" + kind[2]
 				}
-				c.Violation(sig, fmt.Sprintf("parsing %d bytes took %d µs: %s — the parser does work that is not bounded by a modest function of the input length (input %s)", n, r.ParseUS, why, cs.Name), cs)
+				viol(sig, fmt.Sprintf("parsing %d bytes took %d µs: %s — the parser does work that is not bounded by a modest function of the input length (input %s)", n, r.ParseUS, why, cs.Name), cs)
 				c.Hit("outcome:over-work-budget")
 			}
 			if r.Run != "" {
 				c.Hit("run:" + r.Run)
+				if p := os.Getenv("C01_RUNDUMP"); p != "" && r.Run != "ok" { // dev aid: every run that did not end normally
+					if f, err := os.OpenFile(p, os.O_APPEND|os.O_CREATE|os.O_WRONLY, 0o644); err == nil {
+						fmt.Fprintf(f, "%s\t%s\t%s\t%s\n", cs.Name, r.Run, strings.ReplaceAll(r.RunMsg, "\n", " "), strings.TrimPrefix(string(mustHex(cs.Hex)), lexh.ConstructPrelude))
+						f.Close()
+					}
+				}
+				for _, t := range r.Toks {
+					executedTypes[t.Ty] = true
+				}
 				if r.Run == "died" {
-					c.Violation("run:died:"+firstWords(r.RunMsg), "the process died while running an accepted program: "+r.RunMsg, cs)
+					viol("run:died:"+firstWords(r.RunMsg), "the process died while running an accepted program: "+r.RunMsg, cs)
 				}
 				if r.Run == "go-panic" {
 					// the clause of C01: an accepted program never crashes *because of a missing operand or
@@ -305,7 +368,12 @@ func Run(c *vh.Ctx) {
 						if strings.HasPrefix(site, "node/") {
 							site = "node"
 						}
-						c.Violation("run:nil-operand:"+site, "accepted program crashed the interpreter (missing operand or clause): "+r.RunMsg, cs)
+						if kind[0] == "hole" {
+							// which token stands where an operand belongs, and the file that dereferences
+							// the missing node (the position and the form are in the case name)
+							site = "hole:" + cs.Tok + " @ " + siteSig(r.RunMsg)
+						}
+						viol("run:nil-operand:"+site, "accepted program crashed the interpreter (missing operand or clause): "+r.RunMsg, cs)
 					} else {
 						c.Hit("run:other-go-panic(C03)")
 					}
@@ -325,6 +393,16 @@ func Run(c *vh.Ctx) {
 			}
 		}
 	}
+	if os.Getenv("C01_ONLYHOLES") != "" && len(c.ReplayRaw) == 0 { // dev aid: the hole and construct streams alone
+		var keep []Case
+		for _, cs := range cases {
+			if strings.HasPrefix(cs.Name, "hole:") || strings.HasPrefix(cs.Name, "construct") {
+				keep = append(keep, cs)
+			}
+		}
+		cases = keep
+	}
+	executedTypes = map[int]bool{}
 	const batchSize = 16384
 	for lo := 0; lo < len(cases); lo += batchSize {
 		hi := lo + batchSize
@@ -333,10 +411,51 @@ func Run(c *vh.Ctx) {
 		}
 		judge(cases[lo:hi])
 	}
+	if len(c.ReplayRaw) == 0 {
+		// coverage of the run-after-accept clause: token types of the table that no accepted AND executed
+		// program contained
+		var never []string
+		for _, d := range token.TokenDefinitions {
+			if d.Literal != "" && !executedTypes[int(d.Type)] {
+				never = append(never, d.Literal)
+			}
+		}
+		c.Note("run-after-accept coverage: %d of %d token-table entries occur in an accepted and executed program; never executed: %s", len(token.TokenDefinitions)-len(never), len(token.TokenDefinitions), strings.Join(never, " "))
+	}
 	if len(c.ReplayRaw) == 0 && c.Thorough() {
 		c.Res.Exhaustive = true
 		c.Res.ExhaustiveWhat = "every token-boundary prefix, single-token deletion and duplication of every corpus file"
 	}
+}
+
+// executedTypes: token types seen in programs that were accepted and run
+var executedTypes map[int]bool
+
+func mustHex(h string) []byte { b, _ := hex.DecodeString(h); return b }
+
+func hexOf(s string) string { return hex.EncodeToString([]byte(s)) }
+
+// extraConstructs: construct-bearing programs (over lexh.ConstructPrelude) for constructs that
+// lexh.ConstructSnippets does not contain; each is cut, and damaged by one token, in every way.
+var extraConstructs = []string{
+	`$v = [...$arr]; $w = [0, ...$arr]; $x = [...$arr, 3]; echo count($v), count($w), count($x);`,
+	`$v = [...$arr, ...[4, 5]]; $w = ['k' => 1, ...$arr]; echo count($v), count($w);`,
+	`[...$arr]; [0, ...$arr]; [0, 1, ...$arr, 3]; echo 'x';`,
+	`echo f0(...$arr), f0(1, ...[2]), $o->m(...[2]), K0::s(...[3]);`,
+	`$n = new K0(...[]); echo $n->p, $o?->p, $zz?->p;`,
+	`$n = clone $o; print 'p'; echo $n->p;`,
+	`$r = &$a; $r = 5; echo $a; function rf(&$x) { $x++; } rf($a); echo $a;`,
+	`list($x, $y) = [1, 2]; list('k' => $z) = ['k' => 3]; echo $x, $y, $z;`,
+	`$g = static fn($x) => $x + 1; $h = static function() { return 2; }; echo $g(1), $h();`,
+	`echo $a ** 2, $a << 1, $a >> 1, $a & 3, $a | 4, $a ^ 1, $a xor $b, $a and $b, $a or $b;`,
+	`echo (float)$a, (bool)$a, (array)$a, @$zz, $a <> $b;`,
+	`$name = 'a'; echo $$name, ${'a'};`,
+	`enum E0 { case A; case B; } echo E0::A === E0::A ? 'same' : 'diff';`,
+	`$k = new class { public $v = 2; function f() { return $this->v; } }; echo $k->f();`,
+	`function gen0() { yield 1; yield 'k' => 2; } foreach (gen0() as $v) { echo $v; }`,
+	`echo $arr[0] ?? 'd', $m['x']['y'] ?? 'e', isset($arr[0][1]) ? 1 : 0;`,
+	`$i = 5; while ($i --> 0) { if ($i % 2) continue; echo $i; } echo 'e';`,
+	"echo <<<'EOT'\nraw $a\nEOT;\necho 1;",
 }
 
 // caseKey identifies a case for the distinctness count (a digest: the sources themselves are large)
